@@ -6,6 +6,7 @@
 //!   -> RETURNED <micros>       Server::run returned that long after the trigger
 //!   <- dump <hexkey> ...       -> VAL <hexkey> <hexvalue|nil|ERR:...> per key, then DUMPED
 //!   <- stats                   -> STATS <json>   (shim counters: hint files created, unlinks, delays)
+//!   <- fdshort <ms>            -> SHORT <n> once no descriptor can be allocated, RESTORED after <ms>
 //!   <- exit                    leave (the store is dropped first)
 
 use std::io::{BufRead, Write};
@@ -82,6 +83,7 @@ pub fn main(args: &[String]) -> i32 {
     let threads: usize = args[4].parse().unwrap();
     shim::record_data(false);
     shim::watch(Some(&dir));
+    let mut backoff = (1u64, 64u64);
     for a in &args[5..] {
         if let Some(spec) = a.strip_prefix("delay:") {
             let v: Vec<u32> = spec.split(',').map(|x| x.parse().unwrap_or(0)).collect();
@@ -90,6 +92,11 @@ pub fn main(args: &[String]) -> i32 {
             }
         } else if let Some(s) = a.strip_prefix("seed:") {
             shim::seed(s.parse().unwrap_or(1));
+        } else if let Some(s) = a.strip_prefix("backoff:") {
+            let v: Vec<u64> = s.split(',').map(|x| x.parse().unwrap_or(1)).collect();
+            if v.len() == 2 {
+                backoff = (v[0], v[1]);
+            }
         }
     }
     let kv = match conf.to_config(&dir).open() {
@@ -107,8 +114,8 @@ pub fn main(args: &[String]) -> i32 {
     nc.host = "127.0.0.1".parse().unwrap();
     nc.port = port;
     nc.max_connections = max_conn;
-    nc.min_backoff_ms = 1;
-    nc.max_backoff_ms = 64;
+    nc.min_backoff_ms = backoff.0;
+    nc.max_backoff_ms = backoff.1;
     // the storage handed to the server: the real handle inside a wrapper that only adds the two
     // panic triggers described at PanickyKv
     let h2 = PanickyKv::new(handle.clone());
@@ -165,6 +172,30 @@ pub fn main(args: &[String]) -> i32 {
                 let unlinks = evs.iter().filter(|e| e.kind == shim::K_UNLINK && e.result == 0).count();
                 let d = handle.verif_dump();
                 println!("STATS {}", serde_json::json!({"hint_files_created": hints, "unlinks": unlinks, "delays": shim::delays_done(), "readers_available": d.readers_available, "readers_capacity": d.readers_capacity}));
+            }
+            Some("fdshort") => {
+                // descriptor shortage for that many milliseconds: the limit is lowered to just above
+                // the highest descriptor in use and every hole below it is filled, so that the
+                // listener's accept() fails with EMFILE until the shortage is over
+                let ms: u64 = it.next().and_then(|x| x.parse().ok()).unwrap_or(50);
+                let mut old = libc::rlimit { rlim_cur: 0, rlim_max: 0 };
+                unsafe { libc::getrlimit(libc::RLIMIT_NOFILE, &mut old) };
+                let maxfd = std::fs::read_dir("/proc/self/fd").map(|rd| rd.flatten().filter_map(|e| e.file_name().to_string_lossy().parse::<u64>().ok()).max().unwrap_or(64)).unwrap_or(64);
+                let low = libc::rlimit { rlim_cur: maxfd + 1, rlim_max: old.rlim_max };
+                unsafe { libc::setrlimit(libc::RLIMIT_NOFILE, &low) };
+                let mut fillers = Vec::new();
+                while let Ok(f) = std::fs::File::open("/dev/null") {
+                    fillers.push(f);
+                    if fillers.len() > 100_000 {
+                        break;
+                    }
+                }
+                println!("SHORT {}", fillers.len());
+                let _ = std::io::stdout().flush();
+                std::thread::sleep(std::time::Duration::from_millis(ms));
+                drop(fillers);
+                unsafe { libc::setrlimit(libc::RLIMIT_NOFILE, &old) };
+                println!("RESTORED");
             }
             Some("exit") | None => break,
             _ => println!("?"),
